@@ -262,6 +262,11 @@ class Live:
     pass
 
 
+def parent_of(L, name):
+    """scene-graph parents a beam / laser may be given: the two plain nodes, the plasma node itself, the beam node"""
+    return {'mid': L.mid, 'alt': L.alt, 'plasma': L.plasma, 'beam': getattr(L, 'beam', None)}[name]
+
+
 def build(cfg):
     """construct the scene from scratch in one fixed canonical order"""
     L = Live()
@@ -293,7 +298,7 @@ def build(cfg):
     bc = cfg.get('beam')
     L.beam = None
     if bc:
-        L.beam = b = Beam(parent=L.mid if bc['parent'] == 'mid' else L.alt, transform=mat(bc['transform']))
+        L.beam = b = Beam(parent=parent_of(L, bc['parent']), transform=mat(bc['transform']))
         b.plasma = L.plasma2 if bc.get('plasma') == 'q' else p
         b.atomic_data = L.data[bc['atomic_data']]
         b.energy = bc['energy']
@@ -310,7 +315,7 @@ def build(cfg):
     lc = cfg.get('laser')
     L.laser = None
     if lc:
-        L.laser = l = Laser(parent=L.mid if lc['parent'] == 'mid' else L.alt, transform=mat(lc['transform']))
+        L.laser = l = Laser(parent=parent_of(L, lc['parent']), transform=mat(lc['transform']))
         l.integrator = NumericalIntegrator(step=lc['integrator_step'])
         l.plasma = L.plasma2 if lc.get('plasma') == 'q' else p
         l.importance = lc['importance']
@@ -321,7 +326,8 @@ def build(cfg):
 
 
 SIGHTS = [((-3.0, 0.02, 0.11), (1.0, 0.0, 0.0)), ((0.13, -3.0, 0.3), (0.0, 1.0, 0.02)), ((0.4, 0.35, 3.0), (-0.05, -0.04, -1.0)),
-          ((-2.0, -2.0, 0.6), (1.0, 1.0, -0.1))]
+          ((-2.0, -2.0, 0.6), (1.0, 1.0, -0.1)),
+          ((-3.0, 0.2, -0.3), (1.0, 0.0, 0.0))]          # crosses the laser axis (Thomson scattering is observed on it)
 DENS_PTS = [(0.0, 0.0, 0.3), (0.02, -0.01, 0.9), (0.05, 0.04, 1.7), (0.0, 0.0, 2.6), (-0.03, 0.02, 3.4), (0.3, 0.0, 1.0)]
 
 
@@ -345,7 +351,7 @@ def observe(L, wl=(480.0, 560.0, 16), order=None):
                 out.append(float(L.beam.density(*pt)))
             d = L.beam.direction(0.05, -0.03, 1.3)
             out.extend([d.x, d.y, d.z])
-            g = L.beam.children
+            g = [c for c in L.beam.children if hasattr(c, 'bounding_box')]     # (a laser may be parented to the beam)
             out.append(float(len(g)))
             for c in g:
                 bb = c.bounding_box()
